@@ -1015,13 +1015,29 @@ func (s *scripted) Shuffle(n int, swap func(i, j int)) {
 
 // subsetDistribution enumerates all answer sequences of the discretised source and returns the exact
 // probability of every k-subset of [0,n).
-func subsetDistribution(n, k, m int) (map[int]float64, int64) {
+var samplerVariants = []string{"Sample", "SampleSlice", "SampleIterator", "SampleStream"}
+
+func subsetDistribution(variant, n, k, m int) (map[int]float64, int64) {
 	dist := map[int]float64{}
 	var paths int64
 	answers := []int{}
+	items := make([]int, n)
+	for i := range items {
+		items[i] = i
+	}
 	for {
 		s := &scripted{m: m, answers: clone(answers), weight: 1}
-		got := xrand.VerifSample(s, n, k)
+		var got []int
+		switch variant {
+		case 0:
+			got = xrand.VerifSample(s, n, k)
+		case 1:
+			got = xrand.VerifSampleSlice(s, items, k)
+		case 2:
+			got = xrand.VerifSampleIterator(s, iterator.Slice(items), k)
+		default:
+			got, _ = xrand.VerifSampleStream(context.Background(), s, stream.FromIterator(iterator.Slice(items)), k)
+		}
 		paths++
 		mask := 0
 		for _, x := range got {
@@ -1062,30 +1078,35 @@ func checkXrandUniform(quick bool) []map[string]any {
 		cfgs = append(cfgs, cfg{4, 1, 8}, cfg{5, 3, 6}, cfg{5, 4, 8}, cfg{3, 1, 16}, cfg{4, 3, 16})
 	}
 	var table []map[string]any
-	for _, c := range cfgs {
-		dist, paths := subsetDistribution(c.n, c.k, c.m)
-		atomic.AddInt64(&cases, paths)
-		want := 1 / float64(choose(c.n, c.k))
-		maxDev, total := 0.0, 0.0
-		for mask, p := range dist {
-			total += p
-			if bitsSet(mask) != c.k {
-				fail("xrand/Sample", "with the discretised source Sample(%d,%d) returned a set of %d items", c.n, c.k, bitsSet(mask))
+	for variant, vname := range samplerVariants {
+		for _, c := range cfgs {
+			if variant > 0 && c.m > 8 {
+				continue
 			}
-			if d := math.Abs(p-want) / want; d > maxDev {
-				maxDev = d
+			dist, paths := subsetDistribution(variant, c.n, c.k, c.m)
+			atomic.AddInt64(&cases, paths)
+			want := 1 / float64(choose(c.n, c.k))
+			maxDev, total := 0.0, 0.0
+			for mask, p := range dist {
+				total += p
+				if bitsSet(mask) != c.k {
+					fail("xrand/Sample", "with the discretised source %s(%d,%d) returned a set of %d items", vname, c.n, c.k, bitsSet(mask))
+				}
+				if d := math.Abs(p-want) / want; d > maxDev {
+					maxDev = d
+				}
 			}
+			if len(dist) != choose(c.n, c.k) {
+				maxDev = 1 // some subset is never produced
+			}
+			// The mid-point rule is coarse; what is asserted is that no subset's probability is off by
+			// more than the stated factor (a biased or position-dependent sampler is off by far more).
+			const tol = 0.35
+			if maxDev > tol || math.Abs(total-1) > 1e-9 {
+				fail("xrand/Sample-not-uniform", "%s(n=%d,k=%d): under the %d-point discretised source the subset probabilities deviate from 1/C(n,k)=%.4f by up to %.0f%% (tolerance %.0f%%); distribution %v", vname, c.n, c.k, c.m, want, maxDev*100, tol*100, dist)
+			}
+			table = append(table, map[string]any{"function": vname, "n": c.n, "k": c.k, "quadrature_points": c.m, "answer_sequences": paths, "max_relative_deviation": maxDev, "tolerance": tol})
 		}
-		if len(dist) != choose(c.n, c.k) {
-			maxDev = 1 // some subset is never produced
-		}
-		// The mid-point rule is coarse; what is asserted is that no subset's probability is off by
-		// more than the stated factor (a biased or position-dependent sampler is off by far more).
-		const tol = 0.35
-		if maxDev > tol || math.Abs(total-1) > 1e-9 {
-			fail("xrand/Sample-not-uniform", "Sample(n=%d,k=%d): under the %d-point discretised source the subset probabilities deviate from 1/C(n,k)=%.4f by up to %.0f%% (tolerance %.0f%%); distribution %v", c.n, c.k, c.m, want, maxDev*100, tol*100, dist)
-		}
-		table = append(table, map[string]any{"n": c.n, "k": c.k, "quadrature_points": c.m, "answer_sequences": paths, "max_relative_deviation": maxDev, "tolerance": tol})
 	}
 	return table
 }
